@@ -101,8 +101,7 @@ pub fn run(out: &mut Out, tier: &str, seed: u64) {
         let mut seen = std::collections::HashMap::new();
         for id in 0..64u64 {
             for len in [16usize, 24, 32, 48, 64] {
-                let mut sub = vec![0u8; len];
-                if crypto_kdf_derive_from_key(&mut sub, id, &ctx, &key).is_ok() {
+                if let Outcome::Ok(sub) = guard(|| { let mut sub = vec![0u8; len]; crypto_kdf_derive_from_key(&mut sub, id, &ctx, &key).map(|_| sub) }) {
                     out.search_evaluations += 1;
                     // compare on the common 16-byte prefix: a length-blind derivation shows up as equal prefixes
                     let pre = sub[..16].to_vec();
